@@ -251,6 +251,10 @@ class Model:
             HASHES = {}
         import hashlib
 
+        # spellings first: the renaming passes below match locals by how they are defined and used (`for i, v in enumerate(xs)` vs
+        # `for i in range(len(xs)): v = xs[i]` give `v` another fingerprint)
+        if canonical_spellings(self):
+            self._reindex()
         self.changed_functions = {q for q, f_ in self.functions.items() if not f_.module.short.startswith("_typeguard")
                                   and HASHES.get(q) != hashlib.sha1(ast.dump(f_.node).encode()).hexdigest()[:12]}
         # pinned functions that exist under a new name get their name back, everywhere in the package
